@@ -145,6 +145,13 @@ def call_run_case(mod, case):
     sys.setrecursionlimit(depth + 1200)
     armed = _arm_wall_watchdog()
     hits0 = _WALL["hits"]
+    tz = case.get("tz") if isinstance(case, dict) else None
+    old_tz = os.environ.get("TZ")
+    if tz:
+        # the process runs in a time zone with daylight saving (POSIX rule, no tz database needed)
+        import time as _time
+        os.environ["TZ"] = tz
+        _time.tzset()
     debug_log = isinstance(case, dict) and case.get("debug_log")
     if debug_log:
         # the application has switched the library's logger to DEBUG (records are built and handled, output dropped)
@@ -160,6 +167,13 @@ def call_run_case(mod, case):
             res["wall_hits"] = _WALL["hits"] - hits0
         return res
     finally:
+        if tz:
+            import time as _time
+            if old_tz is None:
+                os.environ.pop("TZ", None)
+            else:
+                os.environ["TZ"] = old_tz
+            _time.tzset()
         if debug_log:
             logging.disable(logging.CRITICAL)
             logging.getLogger("goodwe").setLevel(logging.NOTSET)
